@@ -42,13 +42,17 @@ def _scenario(program, value_kind, attrs_kind, exists, kw):
     if isinstance(na, DictV):
         heap["$caller.new_attributes"] = DictV(na.items)
     kwargs = DictV([(Const("k"), Sym(("kwattr", "k")))]) if kw else DictV(())
+    if kw == "context-str":     # an attribute that happens to be called `context`: merged like any keyword attribute
+        kwargs = DictV([(Const("context"), Const("front_door"))])
+    elif kw == "context-obj":   # a real Home Assistant context: handed to async_set, not an attribute
+        kwargs = DictV([(Const("context"), ObjV("given_ctx", "Context"))])
 
     def states_get(interp, node, args, kwargs_, cfg, out):
         return [(cfg, st if exists else Const(None))]
 
     pol = FlowPolicy(program, events=["cls.hass.states.async_set"], may_raise_all=False, cancel=False,
                      summaries={"cls.hass.states.get": states_get, "asyncio.current_task": lambda i, n, a, k, c, o: [(c, Sym(("task",)))]},
-                     globals_={"STATE_VIRTUAL_ATTRS": ListV([Const(v) for v in VIRTUAL], "set")})
+                     globals_={"STATE_VIRTUAL_ATTRS": ListV([Const(v) for v in VIRTUAL], "set"), "Context": ClassV("Context")})
     pol.track_aliases = True
     heap["State.notify_var_last"] = DictV(())
     heap["State.notify"] = DictV(())
@@ -153,7 +157,9 @@ def run(ctx):
     program = ctx.program
     fn = program.func(SET)
     ctx.rule("R16.1", "State.set: value/attributes handed to Home Assistant follow the documented rules; one async_set; no mutation of inputs", floor=30)
-    for value_kind, attrs_kind, exists, kw in itertools.product(("omitted", "plain", "snapshot"), ("omitted", "empty", "dict"), (True, False), (False, True)):
+    cases = list(itertools.product(("omitted", "plain", "snapshot"), ("omitted", "empty", "dict"), (True, False), (False, True))) + \
+        [("plain", "omitted", True, "context-str"), ("plain", "dict", False, "context-str"), ("plain", "omitted", True, "context-obj")]
+    for value_kind, attrs_kind, exists, kw in cases:
         res, value, na = _scenario(program, value_kind, attrs_kind, exists, kw)
         # specification
         if value_kind == "omitted":
@@ -172,10 +178,12 @@ def run(ctx):
             base = {"old": "$('curattr', 'old')"}
         else:
             base = {}
-        if kw:
+        if kw == "context-str":
+            base = dict(base, context="'front_door'")
+        elif kw is True:
             base = dict(base, k="$('kwattr', 'k')")
         exp_attrs = tuple(sorted(base.items()))
-        label = f"value={value_kind} new_attributes={attrs_kind} entity={'exists' if exists else 'missing'} kwargs={'one' if kw else 'none'}"
+        label = f"value={value_kind} new_attributes={attrs_kind} entity={'exists' if exists else 'missing'} kwargs={'one' if kw is True else ('none' if not kw else kw)}"
         problems = []
         rets = [r for r in res if r[0] == "return"]
         if not rets:
@@ -191,6 +199,8 @@ def run(ctx):
                 problems.append(f"state value {got_val}, specified {exp_val}")
             if got_attrs != exp_attrs:
                 problems.append(f"attributes {got_attrs}, specified {exp_attrs}")
+            if kw == "context-obj" and dict(calls[0][3]).get("context") != ObjV("given_ctx", "Context"):
+                problems.append(f"the given Context is not handed to async_set (context={dict(calls[0][3]).get('context')!r})")
             if mutated:
                 problems.append("mutates " + " and ".join(mutated))
         ctx.check(not problems, "R16.1", SET, f"set: {label}",
